@@ -29,7 +29,9 @@ func init() {
 func runC43(r *Run) {
 	w := newClassic(r, []string{"lobby"}, nil)
 	proxyEvents(w)
-	protChoices := []int32{int32(version.Minecraft_1_20_2.Protocol), int32(version.Minecraft_1_8.Protocol), int32(version.MaximumVersion.Protocol), 999, 5000, -1, 0, 3, int32(version.Minecraft_1_16_4.Protocol)}
+	protChoices := []int32{int32(version.Minecraft_1_20_2.Protocol), int32(version.Minecraft_1_8.Protocol), int32(version.MaximumVersion.Protocol), 999, 5000, -1, 0, 3, int32(version.Minecraft_1_16_4.Protocol),
+		// numbers between supported versions (the table is sparse)
+		6, 48, 100, 500, int32(version.MaximumVersion.Protocol) - 1, int32(version.Minecraft_1_7_2.Protocol)}
 	p := protChoices[r.W.Pick(len(protChoices))]
 	supported := version.Protocol(p).Supported()
 	wantProt := int(p)
@@ -101,8 +103,17 @@ func runC43(r *Run) {
 				b := make([]byte, 8)
 				r.W.Bytes(b)
 				payload = append([]byte{0x01}, b...)
-				sent = append(sent, obs{"ping", b})
-				r.Op("ping")
+				switch r.W.Pick(4) {
+				case 2: // bytes behind the long: still to be echoed as they came
+					payload = append(payload, 0xAA, 0xBB)
+					r.Op("ping-with-trailing-bytes")
+				case 3: // the packet id as a two-byte VarInt
+					payload = append([]byte{0x81, 0x00}, b...)
+					r.Op("ping-with-long-id")
+				default:
+					r.Op("ping")
+				}
+				sent = append(sent, obs{"ping", payload})
 			case 4:
 				payload = []byte{0x05, 0x01, 0x02}
 				sent = append(sent, obs{"unknown", nil})
@@ -138,7 +149,7 @@ func runC43(r *Run) {
 						sample()
 						sampling = false
 					case 1:
-						got = append(got, obs{"pong", append([]byte(nil), b.Rest()...)})
+						got = append(got, obs{"pong", append([]byte(nil), pl...)}) // the whole payload, id included
 					default:
 						got = append(got, obs{fmt.Sprintf("id%d", id), nil})
 					}
